@@ -1141,7 +1141,7 @@ static Token *preprocess2(Token *tok) {
       continue;
     }
 
-    if (equal(tok, "pragma") && equal(tok->next, "once")) {
+    if (equal(tok, "pragma") && !tok->next->at_bol && equal(tok->next, "once")) {
       hashmap_put(&pragma_once, tok->file->name, (void *)1);
       tok = skip_line(tok->next->next);
       continue;
